@@ -43,6 +43,20 @@ pub(crate) enum KeyPairKind {
 	Remote(Box<dyn RemoteKeyPair + Send + Sync>),
 }
 
+#[cfg(all(feature = "crypto", feature = "aws_lc_rs"))]
+impl KeyPairKind {
+	/// The PKCS#8 document of a key that was loaded from another encoding (SEC1, PKCS#1).
+	fn to_pkcs8_der(&self) -> Result<Vec<u8>, Error> {
+		use crate::ring_like::encoding::{AsDer, Pkcs8V1Der};
+		Ok(match self {
+			KeyPairKind::Ec(kp) => kp.to_pkcs8v1()._err()?.as_ref().to_vec(),
+			KeyPairKind::Ed(kp) => kp.to_pkcs8v1()._err()?.as_ref().to_vec(),
+			KeyPairKind::Rsa(kp, _) => AsDer::<Pkcs8V1Der>::as_der(kp)._err()?.as_ref().to_vec(),
+			KeyPairKind::Remote(_) => return Err(Error::CouldNotParseKeyPair),
+		})
+	}
+}
+
 impl fmt::Debug for KeyPairKind {
 	fn fmt(&self, f: &mut fmt::Formatter) -> fmt::Result {
 		match self {
@@ -379,6 +393,10 @@ impl KeyPair {
 			} else {
 				panic!("Unknown SignatureAlgorithm specified!");
 			};
+			let serialized_der = match is_pkcs8 {
+				true => serialized_der,
+				false => kind.to_pkcs8_der()?,
+			};
 
 			Ok(KeyPair {
 				kind,
@@ -624,10 +642,19 @@ impl TryFrom<&PrivateKeyDer<'_>> for KeyPair {
 			(kind, alg)
 		};
 
+		// `serialize_der()` / `serialize_pem()` hand out PKCS#8: convert a SEC1 or PKCS#1 key
+		#[cfg(feature = "aws_lc_rs")]
+		let serialized_der = match key {
+			PrivateKeyDer::Pkcs8(_) => key.secret_der().into(),
+			_ => kind.to_pkcs8_der()?,
+		};
+		#[cfg(all(feature = "ring", not(feature = "aws_lc_rs")))]
+		let serialized_der = key.secret_der().into();
+
 		Ok(KeyPair {
 			kind,
 			alg,
-			serialized_der: key.secret_der().into(),
+			serialized_der,
 		})
 	}
 }
